@@ -594,15 +594,23 @@ pub fn c12_strategy(transports: BoxedStrategy<Transport>) -> BoxedStrategy<ConvC
     )
         .prop_map(|(reqs, trailing_kind, transport, fins, mode)| {
             let mut conv = Conversation::default();
+            let mut reads = vec![];
             for (i, ((version, conn), headers, mask)) in reqs.into_iter().enumerate() {
-                conv.reqs.push(build_req(i as u32, "GET".into(), String::new(), version, headers, Framing::None, None, mask as usize, mask, conn, false));
+                // now and then a request carries a body (buffered or streamed) which the
+                // application reads or leaves alone: persistence does not depend on either
+                // (not on an upgrade request: its body is the rest of the connection)
+                let upgrades = conn.as_deref().map(|c| c.to_ascii_lowercase().contains("upgrade")).unwrap_or(false);
+                let blen = if (mask >> 27) % 4 == 0 && !upgrades { [5usize, 1024, 1025, 3000][(mask as usize >> 29) % 4] } else { 0 };
+                let (method, framing) = if blen > 0 { ("POST", Framing::Length { n: blen }) } else { ("GET", Framing::None) };
+                reads.push(if blen > 0 && (mask >> 26) & 1 == 1 { ReadPlan::ToEof { buf: 700, extra: 0 } } else { ReadPlan::None });
+                conv.reqs.push(build_req(i as u32, method.into(), String::new(), version, headers, framing, None, mask as usize, mask, conn, false));
             }
             conv.trailing = match trailing_kind {
                 1 => b"GET /trailing-garbage".to_vec(),
                 2 => b"\x00\x01garbage\r\n\r\n".to_vec(),
                 _ => vec![],
             };
-            let progs: Vec<Prog> = fins.into_iter().map(|finish| Prog { read: ReadPlan::None, finish }).collect();
+            let progs: Vec<Prog> = fins.into_iter().enumerate().map(|(i, finish)| Prog { read: reads.get(i).cloned().unwrap_or(ReadPlan::None), finish }).collect();
             let case0 = ConvCase { conv, progs, script: vec![], transport };
             let exp = crate::conv::expect(&case0);
             let rd = render(&case0.conv);
@@ -678,6 +686,13 @@ pub fn c16_strategy(transports: BoxedStrategy<Transport>) -> BoxedStrategy<ConvC
                 if i == at {
                     r.method = "POST".into();
                     r.headers.extend(headers.clone());
+                    // whatever the request says about the connection, the offence is an offence
+                    match text.len() + headers.len() * 3 + n {
+                        k if k % 5 == 1 => r.headers.push(Hdr::new("Connection", "upgrade")),
+                        k if k % 5 == 2 => r.headers.push(Hdr::new("Connection", "keep-alive, Upgrade")),
+                        k if k % 5 == 3 => r.headers.push(Hdr::new("Connection", "close")),
+                        _ => {}
+                    }
                     // the header the mutation is applied to
                     let (hname, hvalue): (&str, String) = match (kind, target) {
                         (3, _) => ("Content-Length", "0".to_string()),
